@@ -135,14 +135,22 @@ def deliver {B R : Type} (conv : B → Conv (WireList R)) (eqv : Option (WireLis
 
 /-- what happens to the watched path / what the watcher goroutine does -/
 inductive FileEv (B : Type) where
-  | write (c : B)     -- the file's content becomes `c` (an event is queued)
+  | write (c : B)     -- the file's content becomes `c` in place (an event is queued)
   | proc              -- the watcher goroutine handles one queued write event: `doReadAndUpdate` on the *current* content
-  | remove            -- the file is removed (or renamed away for good) and the goroutine handles that: `Handle(nil)`, close
+  | remove            -- the file is removed and the goroutine handles that: `Handle(nil)`, close
+  | renameAway        -- the file is renamed away; the goroutine handles that: `Handle(nil)`, un-watch, start the re-watch retries
+  | recreate (c : B)  -- a complete new file appears at the path; if the retries are pending the next `watcher.Add` succeeds
+                      -- and the loop **falls through to `doReadAndUpdate`** (no event will ever announce that file)
+  | giveUp            -- nothing appeared during the six retries: the source closes itself
+  | replaceOver (c : B) -- a temp file is renamed over the path (editors, config management): the path now holds `c`, but the
+                      -- *watched inode* lost its last link: a Chmod event (⇒ `doReadAndUpdate`, which reads the new file) and
+                      -- then a Remove event (⇒ `Handle(nil)`, close)
 
 structure FileSrc (B R : Type) where
   content : Option B                         -- `none`: the path does not exist
   closed : Bool := false
   pending : Bool := false                    -- a write has not been looked at yet
+  rewatching : Bool := false                 -- the goroutine is inside the re-watch retry loop (it handles nothing else meanwhile)
   hm : Handler (WireList R) × Mgr R := ({}, {})
 
 /-- `Initialize`: first `doReadAndUpdate`, then the watcher (which needs the file to exist) -/
@@ -156,13 +164,29 @@ def FileSrc.step {B R : Type} (conv : B → Conv (WireList R)) (eqv : Option (Wi
     (empty : B) (s : FileSrc B R) : FileEv B → FileSrc B R
   | .write c => if s.content.isSome then { s with content := some c, pending := true } else s
   | .proc =>
-    if s.closed then s else
+    if s.closed || s.rewatching then s else
     match s.content with
     | none => s
     | some c => { s with hm := (deliver conv eqv mo s.hm c).1, pending := false }
   | .remove =>
-    if s.closed then { s with content := none } else
+    if s.closed || s.rewatching then { s with content := none } else
     { s with content := none, closed := true, pending := false, hm := (deliver conv eqv mo s.hm empty).1 }
+  | .renameAway =>
+    if s.closed || s.rewatching then { s with content := none } else
+    { s with content := none, rewatching := true, pending := false, hm := (deliver conv eqv mo s.hm empty).1 }
+  | .recreate c =>
+    if s.closed then { s with content := some c }
+    else if s.rewatching then
+      { s with content := some c, rewatching := false, pending := false, hm := (deliver conv eqv mo s.hm c).1 }
+    else s
+  | .giveUp => if s.rewatching then { s with rewatching := false, closed := true } else s
+  | .replaceOver c =>
+    if s.closed then { s with content := some c }
+    else if s.rewatching then                       -- nothing is watched at the moment: the same as `recreate`
+      { s with content := some c, rewatching := false, pending := false, hm := (deliver conv eqv mo s.hm c).1 }
+    else
+      let hm1 := (deliver conv eqv mo s.hm c).1
+      { s with content := some c, closed := true, pending := false, hm := (deliver conv eqv mo hm1 empty).1 }
 
 def FileSrc.run {B R : Type} (conv : B → Conv (WireList R)) (eqv : Option (WireList R) → Option (WireList R) → Bool) (mo : Module R)
     (empty : B) (s : FileSrc B R) (evs : List (FileEv B)) : FileSrc B R :=
